@@ -5,8 +5,8 @@ open CuqiVerif CuqiVerif.Proto CuqiVerif.C16
 
 /-! Line protocol for C16 (all numbers exact rationals):
   cgls  mat A b x0 shift tol maxit          | cgls  fun F G b x0 shift tol maxit   (G = adjoint as a matrix)
-  pcgls mat A P b x0 shift tol maxit        | pcgls fun F G P b x0 shift tol maxit
-      -> k|flag|x|gamma|x_0;x_1;…;x_k        (err-dim on shape mismatch, err-singular if P is singular)
+  pcgls mat H A P b x0 shift tol maxit      | pcgls fun F G H P b x0 shift tol maxit   (H = inv | solve: explicit inverse or spsolve branch)
+      -> k|flag|x|gamma|x_0;x_1;…;x_k|gamma_0,…,gamma_k        (err-dim on shape mismatch, err-singular if P is singular)
   fista mat A b x0 PROX stepsize abstol maxit adaptive | fista fun F G b x0 PROX …
       PROX = l1:λ | nonneg | box:l:u  (l, u vectors or `none`)     -> k|x
   prox l1 γ x | prox nonneg x | prox box x l u                       -> vector
@@ -64,17 +64,23 @@ def parseOper (form : String) (args : List String) : Option (Option Oper × List
 def fmtCG {n m : Nat} (st : CGState Rat (Vector Rat n) (Vector Rat m)) (trace : List (Vector Rat n)) : String :=
   s!"{st.k}|{fmtBool st.flag}|{fmtV st.x}|{fmtRat st.gamma}|{";".intercalate (trace.map fmtV)}"
 
+def fmtCG' {n m : Nat} (run : Nat → CGState Rat (Vector Rat n) (Vector Rat m)) (maxit : Nat) : String :=
+  let st := run maxit
+  let sts := (List.range (st.k + 1)).map run
+  fmtCG st (sts.map (·.x)) ++ "|" ++ fmtVec (sts.map (·.gamma))
+
 def runCgls (op : Oper) (b x0 : List Rat) (shift tol : Rat) (maxit : Nat) : String :=
   match toVec op.m b, toVec op.n x0 with
   | some b, some x0 =>
-    let run := fun k => cgls (oQ op.n) (oQ op.m) op.fwd op.adj b shift tol eps64 x0 k
-    let st := run maxit
-    fmtCG st ((List.range (st.k + 1)).map (fun j => (run j).x))
+    fmtCG' (fun k => cgls (oQ op.n) (oQ op.m) op.fwd op.adj b shift tol eps64 x0 k) maxit
   | _, _ => "err-dim"
 
-def runPcgls (op : Oper) (P : List (List Rat)) (b x0 : List Rat) (shift tol : Rat) (maxit : Nat) : String :=
+def runPcgls (op : Oper) (explicitInv : Bool) (P : List (List Rat)) (b x0 : List Rat) (shift tol : Rat) (maxit : Nat) : String :=
   match toVec op.m b, toVec op.n x0, toMat op.n op.n P with
   | some b, some x0, some _ =>
+    -- `scipy.sparse.linalg.inv` of a 1×1 matrix returns a 1-D array; `Pinv @ x` is then 0-d and `A @ t` raises
+    -- (only once the loop body runs, i.e. `maxit ≥ 1`)
+    if explicitInv && op.n == 1 && maxit ≥ 1 then "err-inv-1x1" else
     match QMat.inverse P with
     | none => "err-singular"
     | some Pi =>
@@ -82,9 +88,7 @@ def runPcgls (op : Oper) (P : List (List Rat)) (b x0 : List Rat) (shift tol : Ra
       match toMat op.n op.n Pi with
       | none => "err-certificate"
       | some Pim =>
-        let run := fun k => pcgls (oQ op.n) (oQ op.m) op.fwd op.adj b tol eps64 (mulVec Pim) (mulVecT Pim) shift x0 k
-        let st := run maxit
-        fmtCG st ((List.range (st.k + 1)).map (fun j => (run j).x))
+        fmtCG' (fun k => pcgls (oQ op.n) (oQ op.m) op.fwd op.adj b tol eps64 (mulVec Pim) (mulVecT Pim) shift x0 k) maxit
   | _, _, _ => "err-dim"
 
 /-- proximal map from its token; `none` = unparsable, `some none` = shape error -/
@@ -168,7 +172,8 @@ def stepCgls (form : String) (args : List String) : Option String := do
 def stepPcgls (form : String) (args : List String) : Option String := do
   let (op, rest) ← parseOper form args
   match rest with
-  | [p, b, x0, shift, tol, maxit] =>
+  | [how, p, b, x0, shift, tol, maxit] =>
+    let explicitInv ← (if how = "inv" then some true else if how = "solve" then some false else none)
     let P ← parseMat p
     let b ← parseVec b
     let x0 ← parseVec x0
@@ -176,7 +181,7 @@ def stepPcgls (form : String) (args : List String) : Option String := do
     let tol ← parseRat tol
     let maxit ← maxit.toNat?
     match op with
-    | some op => some (runPcgls op P b x0 shift tol maxit)
+    | some op => some (runPcgls op explicitInv P b x0 shift tol maxit)
     | none => some "err-dim"
   | _ => none
 
